@@ -593,7 +593,7 @@ func (f *Frame) typeFacts(t types.Type, v Term, h *Heap) []Term {
 			out = append(out, f.typeFacts(fi.Type, f.w.Sorts.FieldOf(v, i), h)...)
 		}
 	case *types.Interface:
-		out = append(out, Ge(ITag(v), IntLit(0)))
+		out = append(out, Ge(ITag(v), IntLit(0)), Implies(Eq(ITag(v), IntLit(0)), Eq(IVal(v), IntLit(0))))
 	}
 	return out
 }
